@@ -97,6 +97,19 @@ NonceMonotoneStep(R1, R2) == R2.nonce >= R1.nonce
 Callable(R, a) == a \in DOMAIN R.meta /\ ~R.meta[a].disabled
 Exposure(R, a) == IF a \notin DOMAIN R.meta THEN "absent" ELSE IF R.meta[a].disabled THEN "refused" ELSE "runs"
 
+(* The exposure of an address does not depend on the SHAPE of the call: calldata selecting a method ("method"), or not
+   selecting one ("no-method": unknown selector, shorter than a selector, empty), with or without value, as the top-level
+   message or from a contract through any call opcode, in every execution mode.  A call to a registered enabled contract is
+   always DISPATCHED to the precompile - it answers, or it reverts inside the precompile - and is never treated as a call
+   to a plain account; a reverted or refused call keeps no value at the address. *)
+InputClasses == {"method", "no-method"}
+Dispatched(R, a) == Callable(R, a)
+CallClass(R, a, ic) ==
+  IF Exposure(R, a) = "absent" THEN "plain-account"            \* succeeds, empty return data, keeps the value sent along
+  ELSE IF Exposure(R, a) = "refused" THEN "refused"             \* fails before anything runs, keeps nothing
+  ELSE IF ic = "method" THEN "answers" ELSE "reverts-in-precompile"
+KeepsValue(R, a, ic) == CallClass(R, a, ic) \in {"plain-account", "answers"}
+
 (***************************************************************************)
 (* MECHANISM layer: the code's steps, in order.  Every operator returns    *)
 (* [ok, R]; a failing message leaves R unchanged (the transaction's cache  *)
@@ -151,6 +164,13 @@ GenesisRegistry(flags, wl, sp) ==
 (* NewEVM: every stored contract is wired in with its disabled flag; the interpreter refuses disabled ones *)
 MechWired(R) == [a \in DOMAIN R.meta |-> R.meta[a].disabled]
 MechCall(R, a) == LET wired == MechWired(R) IN IF a \notin DOMAIN wired THEN "absent" ELSE IF wired[a] THEN "refused" ELSE "runs"
+(* the fork's RunPrecompiledContract / RunCustom: disabled -> error; fewer than 4 bytes -> revert; no method with that
+   selector -> revert; otherwise the method executor.  NewEVM wires the contracts whatever the message looks like. *)
+MechCallClass(R, a, ic) ==
+  LET wired == MechWired(R) IN
+  IF a \notin DOMAIN wired THEN "plain-account"
+  ELSE IF wired[a] THEN "refused"
+  ELSE IF ic = "no-method" THEN "reverts-in-precompile" ELSE "answers"
 
 (***************************************************************************)
 (* Design-level state machine                                              *)
@@ -158,7 +178,7 @@ MechCall(R, a) == LET wired == MechWired(R) IN IF a \notin DOMAIN wired THEN "ab
 VARIABLES reg, supplyPos, known, last, nops
 vars == <<reg, supplyPos, known, last, nops>>
 
-NoOp == [k |-> "none", sender |-> "none", ok |-> FALSE, addr |-> "none", mode |-> "none", out |-> "none"]
+NoOp == [k |-> "none", sender |-> "none", ok |-> FALSE, addr |-> "none", mode |-> "none", out |-> "none", ic |-> "none", cls |-> "none"]
 
 Init ==
   \E flags \in [erc20 : BOOLEAN, staking : BOOLEAN], sp \in [Denoms -> BOOLEAN] :
@@ -220,9 +240,10 @@ SoftwareUpgrade ==
   /\ UNCHANGED <<reg, supplyPos>>
 
 (* an EVM call to address a in some execution mode: every mode builds its EVM through NewEVM *)
-EvmCall(a, mode) ==
+EvmCall(a, mode, ic) ==
   /\ NotProbing
-  /\ last' = [NoOp EXCEPT !.k = "EvmCall", !.addr = a, !.mode = mode, !.out = MechCall(reg, a), !.ok = TRUE]
+  /\ last' = [NoOp EXCEPT !.k = "EvmCall", !.addr = a, !.mode = mode, !.out = MechCall(reg, a), !.ok = TRUE,
+                          !.ic = ic, !.cls = MechCallClass(reg, a, ic)]
   /\ UNCHANGED <<reg, supplyPos, known, nops>>
 
 Next ==
@@ -233,7 +254,7 @@ Next ==
   \/ \E a \in AllAddrs, t \in Types : Retype(a, t)
   \/ \E d \in Denoms : SupplyFlip(d)
   \/ SoftwareUpgrade
-  \/ \E a \in AllAddrs \cup {"elsewhere"}, m \in Modes : EvmCall(a, m)
+  \/ \E a \in AllAddrs \cup {"elsewhere"}, m \in Modes, ic \in InputClasses : EvmCall(a, m, ic)
 
 Spec == Init /\ [][Next]_vars
 
@@ -244,6 +265,8 @@ RegistryLaws == StateLaws(reg)                                  \* UniqueAddr (o
                                                                 \* OneErc20PerDenom, IdxMatchesMeta
 ExposureExact == last.k = "EvmCall" => (last.out = "runs" <=> Callable(reg, last.addr))
                                      /\ (last.out = Exposure(reg, last.addr))
+                                     /\ (last.cls = CallClass(reg, last.addr, last.ic))
+                                     /\ (last.cls \in {"answers", "reverts-in-precompile"} <=> Dispatched(reg, last.addr))
 TypeStable == [][TypeStableStep(reg, reg')]_vars
 VersionMonotone == [][VersionMonotoneStep(reg, reg')]_vars
 (* a contract appears only through an accepted deploy message of a whitelisted sender, at a fresh address *)
